@@ -252,12 +252,74 @@ def resume_json(ctx, party, mode, scratch):
         path = pathlib.Path(scratch) / ("sim_%d.json" % len(ctx.events))     # an os.PathLike, not a str
         sim.to_json(path)
         sim2 = sut.Simulator.from_json(path)
+    elif mode == "json_io_fault":
+        # the disk fills up while the checkpoint is written (ENOSPC after k characters), the directory asked for does not exist;
+        # the operator survives both and writes again - over a file that already holds a longer, older dump. A failed save
+        # must leave the simulator as it was, and the save that succeeds must be complete.
+        r = sub(ctx.sc["seed"], "iofault:%d" % len(ctx.events))
+        n_fail = 0
+        for k in (r.choice([0, 1, 7, 60, 300, 1500]), r.randrange(1, 4000)):
+            fb = _FailingBuffer(k)
+            try:
+                sim.to_json(fb)
+            except _DiskFull:
+                n_fail += 1
+            # (a dump shorter than k characters simply succeeds: nothing to survive)
+        try:
+            sim.to_json(os.path.join(scratch, "no", "such", "dir", "sim.json"))
+        except OSError:
+            n_fail += 1
+        mid = ctx.state_digest()
+        if mid != pre:
+            ctx.io_fault_changed_state = True
+        for _ in range(n_fail):
+            ctx.fired("io_fault_survived")
+        path = os.path.join(scratch, "sim over %d é.json" % len(ctx.events))
+        with open(path, "w") as fh:
+            fh.write("x" * r.choice([10, 200000]))
+        sim.to_json(path)
+        with open(path) as fh:                      # an open text handle instead of a path
+            sim2 = sut.Simulator.from_json(fh)
+    elif mode == "json_handle":
+        # to_json(open file handle) ... from_json(open file handle); the handle is the caller's and stays open for more output
+        path = os.path.join(scratch, "sim_%d.json" % len(ctx.events))
+        with open(path, "w", encoding="utf-8") as fh:
+            sim.to_json(fh)
+            if fh.closed:
+                ctx.handle_closed = True
+        with open(path, encoding="utf-8") as fh:
+            sim2 = sut.Simulator.from_json(fh)
+    elif mode == "json_twice":
+        # checkpoint of a checkpoint: save, load, save the loaded object, load that
+        sim1 = sut.Simulator.from_json(sim.to_json())
+        sim2 = sut.Simulator.from_json(sim1.to_json())
     else:
         raise HarnessError(mode)
     ctx.sim = sim2
     post = ctx.state_digest()
     sim2.update_scheduler(party)
     return pre, post, sim
+
+
+class _DiskFull(OSError):
+    pass
+
+
+class _FailingBuffer(io.StringIO):
+    """A text stream that accepts k characters and then reports a full disk (errno ENOSPC) on every further write."""
+
+    def __init__(self, k):
+        super().__init__()
+        self._left = k
+
+    def write(self, s):
+        if len(s) > self._left:
+            super().write(s[:self._left])      # a short write, then the error
+            self._left = 0
+            import errno
+            raise _DiskFull(errno.ENOSPC, "No space left on device")
+        self._left -= len(s)
+        return super().write(s)
 
 
 def run_world(sc, observe=0, snapshot=True, setup=None, mutate_constraints=True, after_load=None):
